@@ -184,7 +184,9 @@ func (e *henv) deposit(sim *hsenv.Sim, prev *wire.BlockHeader, height uint32, se
 	return h, opKey(txid[:], 0)
 }
 
-func opKey(hash []byte, idx uint32) string { return hex.EncodeToString(hash) + ":" + strconv.Itoa(int(idx)) }
+func opKey(hash []byte, idx uint32) string {
+	return hex.EncodeToString(hash) + ":" + strconv.Itoa(int(idx))
+}
 
 // ---------------------------------------------------------------------------------------------
 // reading the contract storage (exported codec of the stored record, raw store key built here)
@@ -609,7 +611,7 @@ func handlerLevel(r *ev.Run, v *vault) map[string]any {
 	polyenv.GlobalHeight = 1
 	const t = 100000
 	values := []uint64{t / 2, t, t * 13 / 10, t * 14 / 10}
-	amounts := []uint64{t / 2, t, t * 13 / 10, 2 * t, t * 27 / 10}
+	amounts := []uint64{t / 2, t*8/10 + 1, t, t * 13 / 10, 2 * t, t * 27 / 10} // 130000-80001 = min-change 50000 - 1
 	maxSeed := r.QT(4, 5)
 	depth := 3
 	if r.Thorough() {
